@@ -21,7 +21,7 @@ var theSim *Sim
 
 type simDriver struct{}
 
-var dsnRe = regexp.MustCompile(`^([^:]*):[^@]*@tcp\(([^:)]+):\d+\)`)
+var dsnRe = regexp.MustCompile(`^([^:]*):[^@]*@tcp\(([^:)]*):\d+\)`)
 
 func (simDriver) Open(string) (driver.Conn, error) { return nil, errors.New("verifsim: use connector") }
 
@@ -47,6 +47,7 @@ func (c *simConnector) Connect(ctx context.Context) (driver.Conn, error) {
 	if len(r.rows) > 0 {
 		epoch = r.rows[0][0].(int64)
 	}
+	openConns.Add(1)
 	return &simConn{id: id, src: c.src, dst: c.dst, epoch: epoch}, nil
 }
 func (c *simConnector) Driver() driver.Driver { return simDriver{} }
@@ -56,13 +57,16 @@ type simConn struct {
 	src, dst string
 	epoch    int64
 	bad      atomic.Bool
+	closed   atomic.Bool
 }
+
+var openConns atomic.Int64
 
 func (c *simConn) Prepare(string) (driver.Stmt, error) { return nil, errors.New("verifsim: no prepare") }
 func (c *simConn) Begin() (driver.Tx, error)           { return nil, errors.New("verifsim: no tx") }
 func (c *simConn) Close() error {
-	if theSim != nil {
-		theSim.connClosed(c)
+	if !c.closed.Swap(true) {
+		openConns.Add(-1)
 	}
 	return nil
 }
